@@ -127,6 +127,60 @@ pub fn mk_geo16(bps: u32, root_entries: u32, clusters: u64, name: &str) -> Cfg {
     vol::cfg_from(name, b.finish(), Some(keep))
 }
 
+/// a FAT12/16 volume populated through the library and then made "foreign": the two bytes of every short entry that
+/// hold the high word of the first cluster on FAT32 (an extended-attribute handle on other systems) carry junk. They
+/// are not part of the cluster number on FAT12/16
+pub fn foreign_hiword(cfg: &Cfg, cs: u32) -> Cfg {
+    use harness::sess::{DirRef, Plan};
+    let r = DirRef::Root;
+    let s = |x: &str| x.to_string();
+    let ops = vec![
+        Op::CreateFile { base: r, path: s("a"), keep: Some(0) },
+        Op::WriteAll { h: 0, len: 2 * cs + 1 },
+        Op::CreateDir { base: r, path: s("d"), keep: None },
+        Op::CreateFile { base: r, path: s("d/a"), keep: Some(1) },
+        Op::WriteAll { h: 1, len: 3 },
+        Op::DropFile { h: 1 },
+        Op::CreateFile { base: r, path: s("long-name-1.txt"), keep: Some(1) },
+        Op::WriteAll { h: 1, len: cs + 1 },
+    ];
+    let ex = harness::sess::run(cfg, &ops, &Plan::default());
+    assert!(ex.panic.is_none() && ex.outs.iter().all(Result::is_ok), "populate failed: {:?}", ex.outs);
+    let mut img = ex.st.borrow().image();
+    let g = vol::geo_of(&img);
+    assert!(g.width != 32);
+    let patch = |img: &mut Vec<u8>, off: usize, n: usize| -> Vec<u32> {
+        let mut subdirs = Vec::new();
+        for i in 0..n {
+            let o = off + 32 * i;
+            if img[o] == 0 {
+                break;
+            }
+            if img[o] == 0xE5 || img[o + 11] & 0x3F == 0x0F {
+                continue;
+            }
+            if img[o + 11] & 0x10 != 0 && img[o] != b'.' {
+                subdirs.push(u16::from_le_bytes([img[o + 26], img[o + 27]]) as u32);
+            }
+            img[o + 20] = 0x34;
+            img[o + 21] = 0x12;
+        }
+        subdirs
+    };
+    let subs = patch(&mut img, g.root_off() as usize, (g.root_bytes() / 32) as usize);
+    for c in subs {
+        patch(&mut img, g.cluster_off(c) as usize, (g.cluster_size() / 32) as usize);
+    }
+    let mut c = cfg.clone();
+    c.base = std::sync::Arc::new(harness::dev::Base::Bytes(img));
+    c.name = format!("{}-foreign-hiword", cfg.name);
+    let mut m = ex.model.clone();
+    m.close_all();
+    m.changed_since_mount = false;
+    c.model0 = Some(std::sync::Arc::new(m));
+    c
+}
+
 pub fn specs(tier: &str) -> Vec<ExpSpec> {
     let th = is_thorough(tier);
     let mut cfgs = Vec::new();
@@ -187,6 +241,10 @@ pub fn specs(tier: &str) -> Vec<ExpSpec> {
         v.push(ExpSpec::new(c2, alpha_of(cs), if th { 4 } else { 3 }));
     }
     v.extend(crate::c03::fragmented_dir_specs(th));
+    for ft in [FatType::Fat12, FatType::Fat16] {
+        let c = foreign_hiword(&vol::tiny_with(ft, 12, 16), 512);
+        v.push(ExpSpec::new(c, alpha::mixed(512), if th { 4 } else { 3 }));
+    }
     {
         // a file truncated to nothing and closed, volume remounted (FAT12/16 forget the allocation hint): whatever still
         // points at the freed chain on the storage is re-used by the next allocation; the same after the dot entry of
